@@ -71,22 +71,28 @@ ExecAll(c) == { [o EXCEPT !.aei = (o.tag = "EI")] : o \in ExecSet(c) }
 Maskable(c) == c.pend.t = "int"
 Refused(c)  == Maskable(c) /\ (~c.r.IFF1 \/ c.r.IM \notin {0, 1, 2})
 
-AcceptSet(c) ==
+\* int0: which mode-0 rule(s) to admit - "z80" (the Z80 rule), "ascoded" (the implementation's
+\* overlay mechanism, finding F3) or "both" (what trace validation uses)
+AcceptSetM(c, int0) ==
   CASE c.r.IM = 1 -> {AcceptINT1(c)}
     [] c.r.IM = 2 -> IF Len(c.pend.d) > 0 THEN {AcceptINT2(c)} ELSE ConsumeEmpty(c)
     [] c.r.IM = 0 -> IF Len(c.pend.d) = 0 THEN ConsumeEmpty(c)
-                     ELSE AcceptINT0_AsCoded(c)
-                          \cup (IF Int0Z80Defined(c.pend.d) THEN {AcceptINT0_Z80(c)} ELSE {})
+                     ELSE (IF int0 \in {"ascoded", "both"} \/ ~Int0Z80Defined(c.pend.d)
+                           THEN AcceptINT0_AsCoded(c) ELSE {})
+                          \cup (IF int0 \in {"z80", "both"} /\ Int0Z80Defined(c.pend.d)
+                                THEN {AcceptINT0_Z80(c)} ELSE {})
+AcceptSet(c) == AcceptSetM(c, "both")
 
 (***************************************************************************)
 (* StepSet(c0): every allowed result of one Step from c0.                   *)
 (***************************************************************************)
-StepSet(c0) ==
+StepSetM(c0, int0) ==
   LET c == [StartStep(c0) EXCEPT !.rslack = 0]
   IN CASE c.pend.t = "none" -> ExecAll(c)
        [] c.pend.t = "nmi"  -> {AcceptNMI(c)}
        [] Refused(c)        -> ExecAll(c)
-       [] OTHER             -> AcceptSet(c) \cup (IF c.aei THEN ExecAll(c) ELSE {})
+       [] OTHER             -> AcceptSetM(c, int0) \cup (IF c.aei THEN ExecAll(c) ELSE {})
+StepSet(c0) == StepSetM(c0, "both")
 
 \* R values an outcome allows
 RAllowed(o) ==
